@@ -9,9 +9,9 @@ TRUST = ("rustc/cargo, the Linux process/rusage interfaces, Python's json; the r
          "likely to be wrong: it is validated against seeded breaks, see DESIGN.md appendix B)")
 
 CHECKS = {
-    "C01": ("process-boundary monitor + library worker under catch_unwind, generated hostile inputs (bounded-exhaustive token soups, mutations, cycles, scaling families)",
+    "C01": ("process-boundary monitor + library worker under catch_unwind, generated hostile inputs (bounded-exhaustive token soups, mutations, truncations, cycles, scaling families); AddressSanitizer builds of worker and binary; thorough: libFuzzer + ASan exploration with artifacts re-judged by the uninstrumented binary",
             "exploration", "4/C01",
-            "No crash/abort/stack overflow/hang observed on the executed inputs; exit status, signal, stderr and CPU time (rusage) of the real binary and of an isolated library worker are the observation points. Universality is approximated by bounded-exhaustive token sequences plus families aimed at each recursion and each unwrap."),
+            "No crash/abort/stack overflow/hang observed on the executed inputs; exit status, signal, stderr and CPU time (rusage) of the real binary and of an isolated library worker are the observation points. Universality is approximated by bounded-exhaustive token sequences plus families aimed at each recursion, each unwrap and each point where a syntax error can interrupt the construction of the AST; memory errors in the pointer-based AST are observed by AddressSanitizer."),
     "C02": ("model-generated programs + position-recording printer vs. AST dump (field-by-field), layout metamorphic relation",
             "exploration", "4/C02",
             "Every declared thing of a generated well-formed program is compared with the library's AST dump, under several token-level layouts of the same program."),
@@ -39,13 +39,13 @@ CHECKS = {
     "C10": ("exhaustive/boundary value sweeps through the real encoder/decoder vs. bit-level reference encoder; Miri + ASan runs",
             "exploration", "4/C10",
             "Round trip, exact consumption and byte-for-byte wire format on exhaustive small domains and boundary neighbourhoods, plus sanitizer runs of the same workload."),
-    "C11": ("exhaustive short byte strings + mutations + lying size prefixes under catch_unwind with per-decode RSS/CPU monitor; strict reference decoder; Miri + ASan",
+    "C11": ("exhaustive short byte strings + mutations + lying size prefixes under catch_unwind with per-decode RSS/CPU monitor; strict reference decoder; Miri + ASan; thorough: the same differential oracle inside a libFuzzer target",
             "exploration", "4/C11",
             "Every decodable type is fed every byte string up to length 2 (thorough: 3), mutated valid encodings and lying prefixes; results are compared with a strict reference decoder and cost is measured per decode."),
     "C12": ("bounded-exhaustive operation histories in lock-step with a reference append-only log; canary-padded buffers; Miri + ASan",
             "exploration", "4/C12",
             "History + executable model: after every operation contents, position, remaining and reservation ranges are compared with the reference."),
-    "C13": ("template product lint x placement x argument vs. reference suppression rule; metamorphic with/without pairs",
+    "C13": ("template product lint x placement x argument and random programs with injected lints and scattered suppressions vs. reference suppression rule; metamorphic with/without pairs",
             "exploration", "4/C13",
             "Levels of every seeded lint are compared with the reference rule; adding a suppression must change nothing else."),
     "C14": ("emitter output (JSON lines / human blocks / totals / escape bytes) vs. the diagnostics returned by the library",
